@@ -15,7 +15,7 @@ static void vc_GetNProcessor(size_t *online, size_t *max)
   if(max) *max = vc_nproc;
 }
 #define GetNProcessor vc_GetNProcessor
-#include "/repo/src/matrix.c"
+#include "matrix.c"
 
 static void mon_decode(void *(*fn)(void *), void *arg)
 {
